@@ -46,7 +46,9 @@ theorem parse_tail_gen (sp : Strptime) (fmt input : Bytes) (z : Tz.Zone) (al : T
     rw [beq_eq_false_iff_ne]; omega
   simp only [hd, hsk, hnu, hy1, hy2, hmo, hda, hho, hmi, hse, hfr, hz1, hz2, hwk, Bool.false_eq_true,
     if_false, List.isEmpty_nil, Bool.not_true, if_true, ne_eq, not_true_eq_false, h60]
-  rw [Ck.bindv, reset_val, Ck.bindv, Ck.pure_val, Ck.bindv, Ck.pure_val]
+  rw [Ck.bindv, reset_val, Ck.bindv, Ck.pure_val]
+  simp only [hse]
+  rw [if_neg (by omega), Ck.bindv, Ck.pure_val]
   simp only []
   rw [Ck.bindv, Ck.pure_val]
   simp only [hmo, hda, hho, hmi, hse]
